@@ -154,6 +154,11 @@ func (w *Worker) Build(text string, gen Gen) (*Built, error) {
 	}
 	r, err := w.Srv.Call(&hook.Req{Mode: "build", Text: []byte(text), Optimize: gen.Optimize, BasicLatin: gen.BasicLatin,
 		LeftRec: gen.LeftRec, OptGrammar: gen.OptGrammar, AltEntry: gen.AltEntry})
+	if err == hook.ErrDied {
+		// the tool itself crashed (fatal error: stack overflow / out of memory): a finding about
+		// the tool on this grammar (C13's subject), not a harness failure
+		return &Built{Text: text, Gen: gen, Panic: "the tool died (fatal error) on this grammar"}, nil
+	}
 	if err != nil {
 		return nil, &HarnessError{"hook: " + err.Error()}
 	}
